@@ -235,6 +235,70 @@ def ledger_pass(prop, tier, seed):
     return violations, stats
 
 
+def fault_pass(prop, tier, seed):
+    """C19 over change sets (`ChangeSet::clear` is one of the clears the property names): scripts in which `clear()` runs
+    while the destructor of an amount panics (caught), followed by joins, additions, further clears and the drop of the
+    set. Every verdict of the changeset monitor after such a clear (`MON C19`), and a harness process that dies, counts.
+    Returns (violations, stats)."""
+    ok, blog = vlib.build_harness([BIN])
+    if not ok:
+        return 0, {}
+    n = 3 if tier == "quick" else 12
+    runs = [(f"fault{i}", ["gen", str(seed * 1000 + 600 + i), "3000" if tier == "quick" else "15000", "40", "fault"], "fault") for i in range(n)]
+    with ThreadPoolExecutor(max_workers=8) as ex:
+        results = list(ex.map(run_one, runs))
+    violations, seen = 0, set()
+    for r in results:
+        ms = [m for m in r["mon"] if m.split()[1] == "C19"]
+        crashed = r["hrc"] != 0 or r["bad"]
+        if ms:
+            m = ms[0]
+            why = " ".join(m.split("op=[")[0].split()[4:16])
+            if why in seen:
+                continue
+            seen.add(why)
+            cid = vlib.field(m, "case")
+            ops = case_ops(r, cid)[:int(vlib.field(m, "line"))]
+            def still(o):
+                return any(x.split()[1] == "C19" for x in run_script_ops(o)["mon"])
+            if still(ops):
+                ops = vlib.ddmin(ops, still)
+            path = vlib.write_replay(prop, f"cs-{seed}-{len(seen)}",
+                                     [f"property {prop}: after a caught destructor panic inside ChangeSet::clear() no amount is destroyed twice or lost, no destroyed amount is visible, and the set keeps behaving like a (now empty) change set",
+                                      f"monitor verdict on the implementation's transcript: {m}",
+                                      f"found by: h_changeset {' '.join(r['tail'])} (case {cid}); minimised by ddmin",
+                                      f"replay: bin/check {prop} --replay <this file>   (changeset domain)"], ops, DOMAIN)
+            print(f"VIOLATION property={prop} replay={path}")
+            violations += 1
+        elif crashed:
+            # the process running the real code died: the transcript so far ends with the op that killed it
+            keep = os.path.join(vlib.TMP, f"cfault-{os.getpid()}.txt")
+            vlib.pipe_to_driver([vlib.hbin(BIN)] + r["tail"], keep=keep)
+            _cid, ops = vlib.last_case(keep) if os.path.exists(keep) else (None, [])
+            ops = [o for o in ops if o != "end"]
+            if os.path.exists(keep):
+                os.unlink(keep)
+            def dies(o):
+                return run_script_ops(o).get("hrc") not in (0, None)
+            if ops and dies(ops):
+                ops = vlib.ddmin(ops, dies)
+                path = vlib.write_replay(prop, f"cs-abort-{seed}",
+                                         [f"property {prop}: after a caught destructor panic inside ChangeSet::clear() the set keeps behaving like a change set",
+                                          f"the process running the real code dies inside the last operation of this script (harness exit status {r['hrc']}; {r['err'].strip()[-300:]})",
+                                          f"found by: h_changeset {' '.join(r['tail'])}; minimised by ddmin",
+                                          f"replay: bin/check {prop} --replay <this file>   (changeset domain)"], ops, DOMAIN)
+                print(f"VIOLATION property={prop} replay={path}")
+            else:
+                path = vlib.write_replay(prop, f"cs-crash-{seed}", [f"harness run {r['label']} did not complete: rc={r['hrc']} {r['bad'][:2]}", r["err"]])
+                print(f"VIOLATION property={prop} replay={path} no-failing-input-found")
+            violations += 1
+        if violations >= 2:
+            break
+    stats = {"changeset_fault_cases": sum(int(r["stats"].get("cases", 0)) for r in results),
+             "changeset_clears": sum(int(r["stats"].get("clears", 0)) for r in results)}
+    return violations, stats
+
+
 JOIN_INFO = {}
 
 
